@@ -1076,6 +1076,18 @@ where
         // Move the skipped nodes to the back of the deque. We do not unlink (drop)
         // them because ValueEntries in the write op queue should be pointing them.
         for node in skipped_nodes {
+            // ... except the nodes whose incarnation has already left the map: they
+            // stay where they are, so that the size-based eviction meets them first
+            // and does not evict live entries on their behalf.
+            let elem = unsafe { &node.as_ref().element };
+            let gone = !self
+                .cache
+                .get(elem.key())
+                .map(|e| std::ptr::eq(&**e.entry_info(), elem.entry_info()))
+                .unwrap_or(false);
+            if gone {
+                continue;
+            }
             unsafe { deqs.probation.move_to_back(node) };
         }
     }
